@@ -102,3 +102,43 @@ package sipsp
 //@   ensures   0 <= n && n <= len(buf)
 //@   ensures   err == ErrHdrOk || err == ErrHdrMoreBytes ==> offs <= n && ciOK(pcid, n)
 //@   ensures   within(pcid.CallID, len(buf))
+
+// ---- bytescase (dependency, verified from its source in the module cache) ----
+
+//@ func bytescase.CmpEq(s1, s2) (r)
+//@   loop 0 "for i, v := range s1"
+//@     invariant -1 <= rangeindex && rangeindex < len(s1) && len(s1) == len(s2)
+//@     invariant forall(k, 0, rangeindex+1, lowerc(s1[k]) == lowerc(s2[k]))
+//@     decreases len(s1) - rangeindex
+//@   ensures r == cieq(s1, s2)
+
+//@ func bytescase.Prefix(prefix, s) (n, ok)
+//@   loop 0 "for i, v := range s"
+//@     invariant -1 <= rangeindex && rangeindex < len(s) && len(prefix) <= len(s) && rangeindex < len(prefix)
+//@     invariant forall(k, 0, rangeindex+1, lowerc(s[k]) == lowerc(prefix[k]))
+//@     decreases len(s) - rangeindex
+//@   ensures ok <==> (len(prefix) <= len(s) && forall(k, 0, len(prefix), lowerc(s[k]) == lowerc(prefix[k])))
+//@   ensures ok ==> n == len(prefix)
+//@   ensures 0 <= n && n <= len(s)
+
+//@ func bytes.Equal(a, b) (r)
+//@   trusted
+//@   ensures r == (len(a) == len(b) && forall(k, 0, len(a), a[k] == b[k]))
+
+//@ func bytes.IndexByte(b, c) (r)
+//@   trusted
+//@   ensures -1 <= r && r < len(b)
+//@   ensures r >= 0 ==> b[r] == c && forall(k, 0, r, b[k] != c)
+//@   ensures r < 0 ==> forall(k, 0, len(b), b[k] != c)
+
+// ---- name lookups ----
+
+//@ func GetHdrType(name) (r)
+//@   loop 0 "for _, h := range hdrNameLookup[i]"
+//@     invariant -1 <= rangeindex && rangeindex < len(hdrNameLookup[i])
+//@     decreases len(hdrNameLookup[i]) - rangeindex
+
+//@ func GetMethodNo(buf) (r)
+//@   loop 0 "for _, m := range mthNameLookup[i]"
+//@     invariant -1 <= rangeindex && rangeindex < len(mthNameLookup[i])
+//@     decreases len(mthNameLookup[i]) - rangeindex
